@@ -9,7 +9,7 @@ Definition is_struct_or_tuple (d : data) : bool :=
 
 (* the `*self` / `Ord::cmp` shortcut condition *)
 Definition shortcut (w : dw) (other : trait) : bool :=
-  (match dw_generics w with [] => true | _ => false end || any_custom_bound w) && dw_contains w other.
+  all_custom_bound w && dw_contains w other.
 
 (* ---- Clone ---- *)
 Definition clone_arm (d : data) : option arm :=
@@ -135,10 +135,9 @@ Definition gen_ord (c : cfg) (it : item) (w : dw) : option ord_body :=
   gen_ord_signature c it w Ord false.
 
 (* ---- Zeroize / ZeroizeOnDrop ---- *)
-Definition zeroize_arm (d : data) : option (list (nat * bool)) :=
-  if data_is_empty d Zeroize then None
-  else if is_struct_or_tuple d then Some (map (fun p => (fst p, f_fqs (snd p))) (iter_fields d Zeroize))
-  else None.
+Definition zeroize_arm (d : data) : zarm :=
+  if data_is_empty d Zeroize then ZWild
+  else ZFields (map (fun p => (fst p, f_fqs (snd p))) (iter_fields d Zeroize)).
 
 Definition gen_zeroize (it : item) : zeroize_body :=
   match it with
@@ -146,12 +145,12 @@ Definition gen_zeroize (it : item) : zeroize_body :=
   | IEnum _ _ _ vs => ZMatch (map zeroize_arm vs)
   end.
 
-Definition drop_arm (d : data) : option arm :=
-  if data_is_empty d ZeroizeOnDrop then None
-  else if is_struct_or_tuple d then Some (positions d ZeroizeOnDrop) else None.
+Definition drop_arm (d : data) : darm :=
+  if data_is_empty d ZeroizeOnDrop then DWild else DFields (positions d ZeroizeOnDrop).
 
 Definition gen_drop (c : cfg) (it : item) : drop_body :=
-  let mk vs := if c_zod c then DrMatch (map drop_arm vs) else DrDelegate (map (fun d => isSome (drop_arm d)) vs) in
+  let mk vs := if c_zod c then DrMatch (map drop_arm vs)
+               else DrDelegate (map (fun d => negb (data_is_empty d ZeroizeOnDrop)) vs) in
   match it with
   | IItem d => if data_is_empty d ZeroizeOnDrop then DrEmpty else mk [d]
   | IEnum _ _ _ vs => mk vs
